@@ -159,6 +159,10 @@ def skeleton(body, consts, extra_patterns=()):
                 k = body.index("if", m.start()) + 2
                 items.append((m.start(), kind, " ".join(body[k:j].split())))
                 continue
+            if name == "@seen":
+                # the key expression that goes into a `seen_*` set (what duplicates are compared by)
+                items.append((m.start(), kind, m.group(1) + ": " + " ".join(_first_arg(body, m.end()).split())))
+                continue
             nm = name if isinstance(name, str) else name(m)
             if kind == "call" and rx.endswith("\\("):
                 a = _resolve(_first_arg(body, m.end()), m.start(), lets, consts)
@@ -233,11 +237,13 @@ LAYERSET_EXTRA = [
     (r"LayerContents::load\(", "call", "LayerContents::load"),
 ]
 LAYERCONTENTS_EXTRA = [
+    (r"seen_(\w+)\.insert\(", "seen", "@seen"),
     (r"filter\.should_load\(", "guard", "filter.should_load"),
     (r"Layer::load_impl\(", "call", "Layer::load_impl"),
     (r"if\s+!\s*filter\.includes_default_layer\(\)", "guard", "@cond"),
 ]
 LAYERLOAD_EXTRA = [
+    (r"seen_(\w+)\.insert\(", "seen", "@seen"),
     (r"Glyph::load_with_names\(", "call", "Glyph::load_with_names"),
     (r"Self::parse_layer_info\(", "call", "parse_layer_info"),
 ]
